@@ -195,8 +195,12 @@ def root_cause(h, why):
         elif e[0] == '}':
             scopes.pop()
         elif e[0] == 'decl' and e[1] != 'label':
-            ns = 'tag' if e[1] in ('stag', 'utag') else 'ord'
+            ns = 'tag' if e[1] in ('stag', 'utag', 'sfwd', 'ufwd') else 'ord'
             old = scopes[-1].get((ns, e[2]))
+            if old and ns == 'tag' and (e[1] in ('sfwd', 'ufwd') or old in ('sfwd', 'ufwd')) and old[0] == e[1][0]:
+                # a forward declaration and its completion (same kind of tag) are one entity, not a redeclaration
+                scopes[-1][(ns, e[2])] = e[1] if e[1] in ('stag', 'utag') else old
+                continue
             if old:
                 pair = sorted([old, e[1]])
                 if 'parameter' in pair:
